@@ -14,7 +14,8 @@ RULE = ("drivers: ordered pairs of placements (bit range of a 4-bit signal x mod
         "element / u,s cast); seeded 3-placement designs; two contested signals in random trees of 4-6 modules; every "
         "placement x (Instance output | async / sync memory read-port data | IOBufferInstance i) x range; output x "
         "output; placements and outputs x ports (dir None / Input / Output, also the same signal twice); mixed-width "
-        "arrays; zero-width targets. "
+        "arrays; every slice of a choice between values of different widths (Mux / Array.as_value) x every range of the "
+        "narrower value driven from another module or domain; zero-width targets. "
         "cycles: seeded dependency rings over <= 6 signal bits from slices, Cat, ~ & | ^, Mux, If conditions and one "
         "word-level operator (+ - * << >> < ==), half of them spread over a 3-level module hierarchy, each in a cyclic "
         "variant and with one edge cut (or moved to a sync domain); per CELL KIND (every unary/binary Operator incl. "
@@ -64,7 +65,7 @@ def tlen(t, sigw):
         return sum(tlen(p, sigw) for p in t[1])
     if k == "arr":
         return max([tlen(p, sigw) for p in t[1]] + [0])
-    if k == "sw":
+    if k in ("sw", "mux"):
         return t[3] - t[2]
     raise ValueError(k)
 
@@ -83,6 +84,10 @@ def coq_tgt(t, sigw):
         return "(TCat [" + "; ".join(coq_tgt(p, sigw) for p in t[1]) + "])"
     if k == "arr":
         return f"(TSwitch {tlen(t, sigw)} [" + "; ".join(coq_tgt(p, sigw) for p in t[1]) + "])"
+    if k == "mux":  # Mux(sel, t[1][0], t[1][1])[lo:hi]: SwitchValue cases are (0, val0), (None, val1)
+        el = [t[1][1], t[1][0]]
+        inner = f"(TSwitch {max(tlen(p, sigw) for p in el)} [" + "; ".join(coq_tgt(p, sigw) for p in el) + "])"
+        return f"(TSlice {inner} {t[2]} {t[3]})"
     if k == "sw":   # as_value() of an array, sliced: Slice(SwitchValue)
         inner = f"(TSwitch {max(tlen(p, sigw) for p in t[1])} [" + "; ".join(coq_tgt(p, sigw) for p in t[1]) + "])"
         return f"(TSlice {inner} {t[2]} {t[3]})"
@@ -125,6 +130,10 @@ class Ctx:
         if k == "arr":
             idx = self.fresh(max(1, (len(t[1]) - 1).bit_length()), "idx")
             return Array([self.build(p) for p in t[1]])[idx]
+        if k == "mux":
+            from amaranth.hdl import Mux
+            sel = self.fresh(1, "sel")
+            return Mux(sel, self.build(t[1][0]), self.build(t[1][1]))[t[2]:t[3]]
         if k == "sw":
             idx = self.fresh(max(1, (len(t[1]) - 1).bit_length()), "idx")
             return Array([self.build(p) for p in t[1]])[idx].as_value()[t[2]:t[3]]
@@ -423,6 +432,26 @@ def gen_drv(tier, rng):
             cases.append({"k": "drv", "tag": "sw-slice", "sigw": {"0": 4, "1": 4}, "ports": [],
                           "top": {"st": [["comb", ["sw", [["sig", 0], ["sig", 1]], lo, hi], 0]],
                                   "sub": [{"st": [[d2, ["sl", ["sig", 0], 0, 2], 0]], "sub": []}]}})
+    # a slice with a non-zero start of a choice between values of DIFFERENT widths (Mux(sel, a, b)[lo:hi] and
+    # Array([a, b])[idx].as_value()[lo:hi]) plus a second driver of the narrower value's signal in another module or
+    # domain: accepted when bit-disjoint, DriverConflict when overlapping (C06-choice-target-overhang-indexerror)
+    nmix = 0
+    for wa, wb in ((2, 4), (4, 2), (3, 4), (1, 4)):
+        wmax, wmin = max(wa, wb), min(wa, wb)
+        narrow = 1 if wa < wb else 2
+        for lo in range(wmax):
+            for hi in range(lo + 1, wmax + 1):
+                for l2 in range(wmin):
+                    for h2 in range(l2 + 1, wmin + 1):
+                        nmix += 1
+                        kind = "mux" if (nmix // 2) % 2 else "sw"
+                        where = (nmix // 4) % 3          # other module same domain / same module other domain / both
+                        second = [["comb" if where == 0 else "a", ["sl", ["sig", narrow], l2, h2], 0]]
+                        first = ["comb", [kind, [["sig", 1], ["sig", 2]], lo, hi], int(nmix % 5 == 0)]
+                        top = {"st": [first] + (second if where == 1 else []),
+                               "sub": [] if where == 1 else [{"st": second, "sub": []}]}
+                        cases.append({"k": "drv", "tag": "choice-mixed", "sigw": {"0": 4, "1": wa, "2": wb},
+                                      "ports": [], "top": top})
     for d in "nio":
         cases.append({"k": "drv", "tag": "zero-width", "sigw": {"0": 4}, "ports": [[0, d]],
                       "top": {"st": [["comb", ["sl", ["sig", 0], 1, 1], 0]], "sub": []}})
